@@ -19,22 +19,25 @@ def indices(s: slice, length: int) -> tuple[int, int | None, int]:
     return start, stop, step
 
 def offset_slice_indices_lsb0(key: slice, length: int) -> slice:
-    start, stop, step = indices(key, length)
-    if step is not None and step < 0:
-        if stop is None:
-            new_start = start + 1
-            new_stop = None
-        else:
-            first_element = start
-            last_element = start + ((stop + 1 - start) // step) * step
-            new_start = length - last_element
-            new_stop = length - first_element - 1
-    else:
-        first_element = start
-        # The last element will usually be stop - 1, but needs to be adjusted if step != 1.
-        last_element = start + ((stop - 1 - start) // step) * step
-        new_start = length - last_element - 1
+    """Convert a slice using LSB0 indices to the MSB0 slice which selects the same bits.
+
+    The bits selected by the returned slice are in the opposite order to those selected by key in LSB0 terms, so that
+    they stay in the order that they are stored in."""
+    start, stop, step = key.indices(length)
+    number_of_elements = len(range(start, stop, step))
+    if number_of_elements == 0:
+        # An empty slice, but its position still matters as it can be assigned to.
+        position = length - max(min(start, length), 0)
+        return slice(position, position, key.step)
+    first_element = start
+    last_element = start + (number_of_elements - 1) * step
+    new_start = length - last_element - 1
+    if step > 0:
         new_stop = length - first_element
+    else:
+        new_stop = length - first_element - 2
+        if new_stop < 0:
+            new_stop = None
     return slice(new_start, new_stop, key.step)
 
 
